@@ -18,7 +18,12 @@ let idna (cps : n list) : n list option =
   | Some a -> Some (List.map n_of_int (Array.to_list a))
 
 let () =
-  let ic = if Array.length Sys.argv > 1 then open_in Sys.argv.(1) else stdin in
+  (* model [--impl] [file] : --impl runs the protocol with the model of the C++ parser *)
+  let args = List.tl (Array.to_list Sys.argv) in
+  let use_impl = List.mem "--impl" args in
+  let files = List.filter (fun a -> a <> "--impl") args in
+  let run_line = if use_impl then run_line_impl else run_line_spec in
+  let ic = match files with f :: _ -> open_in f | [] -> stdin in
   let st = ref init_ps in
   let buf = Buffer.create 4096 in
   (try
